@@ -2,7 +2,7 @@
 import ast
 
 from ..engine import sym
-from ..engine.interp import Rec, ClassVal, PyFn, Raised, ExcVal, Env
+from ..engine.interp import Unsupported, Rec, ClassVal, PyFn, Raised, ExcVal, Env
 from ..engine.loader import Unknown, norm_text, walk_local, FUNC_TYPES
 from ..rules import guards
 from ..rules.world import eager_interp
@@ -470,7 +470,61 @@ def rule_R9(ck):
     ck.instance("window", {"valuations (file length x two reported lines)": count}, fn="reports::GraphicalHandler.__call__")
 
 
+def rule_R9b(ck):
+    """Both report handlers, executed whole (abstractly) on small files: every span position - including the end of a file that
+    ends with a newline, an empty file, tabs - with one and with two spans; printing a diagnostic must never raise (an exception
+    here replaces the diagnostic by 'unexpected internal compiler error')."""
+    repo = ck.repo
+    I = eager_interp(repo)
+    I.summaries = {}
+    texts = ("a\n", "a", "mov r0,\n", "a\nb\n", "a\nb", "\n", "", "a\n\n", "x = 1\n\ty = 2\nz\n", "\t\tq ; c\n")
+    n = 0
+    for hname in ("GraphicalHandler", "BareHandler"):
+        where = f"reports::{hname}.__call__"
+        for text in texts:
+            L = len(text)
+            pairs = [(p_, q_) for p_ in range(L + 1) for q_ in range(p_, min(L, p_ + 2) + 1)] + [(0, L)]
+            for (p_, q_) in pairs:
+                for second in (None, (L, L), (0, 0)):
+                    if second is not None and (p_ + q_) % 3:
+                        continue          # two-span reports on a third of the positions
+                    def thunk(text=text, p_=p_, q_=q_, second=second):
+                        C = I.module_get("context", "Context")
+
+                        def at(pos):
+                            c = I.instantiate(C, ["a.mac", text], {})
+                            c.fields["pos"] = pos
+                            return c
+                        spans = [(at(p_), at(q_), "message\nsecond line")]
+                        if second is not None:
+                            spans.append((at(second[0]), at(second[1]), "note"))
+                        h = I.instantiate(I.module_get("reports", hname), [], {})
+                        I.call_method(h, "__call__", [I.module_get("reports", "error"), "some-id"] + spans)
+                        return len([e for e in I.effects if e[0] == "print"])
+                    try:
+                        ps = I.explore(thunk)
+                    except Unsupported as ex:
+                        raise Unknown(f"{hname} on {text!r}: {ex}") from None
+                    n += 1
+                    if len(ps) != 1 or ps[0].kind != "return" or not ps[0].value:
+                        ck.instance(("render", hname, text, p_, q_), {"handler": hname, "file": text, "span": [p_, q_], "second span": second}, fn=where)
+                        what = f"raises {ps[0].value.name} {getattr(ps[0].value, 'args', '')}" if ps and ps[0].kind == "raise" else f"prints nothing / forks ({ps})"
+                        ck.violation(where, f"{hname}: a report with a span at character offsets {p_}..{q_}" + (f" and a second one at {second[0]}..{second[1]}" if second else "") + f" of the file {text!r} {what}: "
+                                            "the run dies with an internal error instead of printing the diagnostic", construct=f"{hname} cannot render a span")
+                        break
+                else:
+                    continue
+                break
+            else:
+                continue
+            break
+    ck.instance("render-valuations", {"handler x file x span position(s)": n}, fn="reports::GraphicalHandler.__call__")
+    if n < 300 and not ck.current.findings:
+        ck.unknown(f"only {n} renderings were executed")
+
+
 def run(ck):
+    ck.run_rule("C07.R9b", "both report handlers render every span position of small files without raising", 1, rule_R9b)
     ck.run_rule("C07.R1", "error latch: error/critical set the flag, critical aborts, warning does neither", 3, rule_R1)
     from ..rules import deliver
     ck.run_rule("R.deliver", "an emitted error reaches the handler at once and latches, also inside speculative evaluation", 6, deliver.rule_deliver)
